@@ -201,11 +201,15 @@ class MaxSumFactorComputation(DcopComputation):
         """
         self._costs[var_name] = msg.costs
 
-        # Wait until we received costs from all our variables before sending
-        # our own costs (if works without doing that, but results are worse)
-        if len(self._costs) == len(self.factor.dimensions):
+        # The costs for a variable can be sent as soon as we have received the
+        # costs from all the OTHER variables of the factor (its own costs are not
+        # used in the message sent back to it). Waiting for all variables would
+        # leave the last sender without answer and block internal variables.
+        if len(self._costs) >= len(self.factor.dimensions) - 1:
             for v in self.variables:
-                if v.name != var_name:
+                if v.name != var_name and all(
+                    o.name in self._costs for o in self.variables if o.name != v.name
+                ):
                     costs_v = maxsum.factor_costs_for_var(
                         self.factor, v, self._costs, self.mode
                     )
